@@ -999,6 +999,7 @@ class IntermediateCodeGen(AbstractCodeGen):
         self._enterpriseOid = None
         self._oids = set()
         self._complianceOids = []
+        self.fakeidx = IntermediateCodeGen.fakeidx
         self.moduleName[0], moduleOid, imports, declarations = ast
 
         outDict, importedModules = self.genImports(imports and imports or {})
